@@ -184,6 +184,8 @@ def _run(spec, tier, seed, tmp, t0):
         return finish(spec, tier, seed, t0, inconclusive=["symx failed: " + (r.stderr or r.stdout)[-3000:]])
     out = json.load(open(outp))
     results = out["results"]
+    if os.environ.get("VERIF_KEEP"):
+        shutil.copy(outp, os.environ["VERIF_KEEP"])
 
     inconclusive = []
     for res in results:
